@@ -72,9 +72,9 @@ def check(spec, stats):
         aw0, _ = gens.plan_csr_layout(lay)
         need = max(0, (max(ratio, 1).bit_length() - 1) - aw0)
         lay["extra_aw"] = lay["extra_aw"] + need
-        mm, built = gens.build_csr_map(lay)
+        mux, built = gens.build_csr_mux(lay, None)
+        mm = mux.bus.memory_map
         csr_aw = mm.addr_width
-        mux = csr.Multiplexer(mm)
         csr_bus = mux.bus
         regs = [Reg(s, e, r["w"], r["acc"]) for (reg, s, e), r in zip(built, lay["regs"])]
     legal = legal_ratio and csr_aw >= ratio.bit_length() - 1
